@@ -64,6 +64,7 @@ func init() {
 }
 
 func runC04(c *Ctx, r *Report) {
+	importFoundation(c, r, "C04", "driver-options")
 	r.Rule("C04/pattern-recompiled", "buildPrivGraph recompiles every level's pattern unconditionally (UpdatePrivileges after an edit takes effect)", 1)
 	r.Rule("C04/always-fetches-prompt", "AcquirePriv reports success only after it fetched the device's prompt", 1)
 	checkPatternRecompiled(c, r, "C04/pattern-recompiled")
